@@ -131,6 +131,7 @@ proof fn lemma_roll_rc(c: Seq<u8>, b: u8, h: int)
         let rm = r[h] as ${W};
         let hh = (2 * h) as ${W};
         let mk = ((1${W} << hh) - 1) as ${W};
+        &&& codes_ok(r2) && r2.len() == c.len()
         &&& pack(r2.subrange(h + 1, 2 * h + 1)) == ((rl >> 2) | (rm << ((2 * (h - 1)) as ${W}))) & mk
         &&& r2[h] == c2[h] ^ 2
         &&& pack(r2.subrange(0, h)) << hh == (((ru << hh) >> 2) | (((b ^ 2) as ${W}) << ((2 * (2 * h - 1)) as ${W}))) & (mk << hh)
